@@ -37,6 +37,12 @@ static inline Dwarf_Die *m_dwarf_offdie(void *dw, unsigned long off, Dwarf_Die *
   for (int j = 0; j < NN; ++j) if (j < (int)g_n && g_off[j] == off) { set_die(r, j); return r; }
   return (Dwarf_Die *)0;
 }
+static inline int m_dwarf_haschildren(Dwarf_Die *d)
+{
+  int i = die_index(d);
+  if (i + 1 < (int)g_n && g_par[i + 1] == i) return 1;
+  return g_claims_children[i] ? 1 : 0;
+}
 static inline unsigned long m_dwarf_dieoffset(Dwarf_Die *d) { return g_off[die_index(d)]; }
 static inline unsigned long m_dwarf_cuoffset(Dwarf_Die *d)
 {
